@@ -122,6 +122,11 @@ def run_shard(ctx):
             judge_listing(ctx, ws, r[1], f"as{bits}" if ctx.rng.random() < 0.85 else f"as{bits}-crlf")
         # S-syn stratum: operand mixes `as` would refuse
         insts = L.gen_listing(ctx.rng, 40)
+        # spellings a hand-edited or foreign listing may carry: the normal form keeps an immediate's text as it stands
+        a0 = insts[-1].addr + insts[-1].nbytes
+        for k, (m, ops) in enumerate([("mov", ["$0xFF", "%eax"]), ("cmp", ["$0xAB", "%al"]), ("push", ["$0xDEADBEEF"]), ("mov", ["$0x0A", "0x1C(%rsp)"]),
+                                      ("and", ["$-0x10", "%rsp"]), ("mov", ["$0xff", "%eax"])]):
+            insts.append(L.SInst(a0 + 8 * k, m, ops, None, None, 5))
         judge_listing(ctx, ws, L.render(insts, ctx.rng), "syn" if ctx.rng.random() < 0.7 else "syn-crlf")
 
 
